@@ -461,14 +461,21 @@ pub fn run_clientread(case: &str) -> String {
         let addr = listener.local_addr().unwrap();
         let tid = std::sync::Arc::new(AtomicI32::new(0));
         let tid2 = tid.clone();
+        let variant = outs.len();
         let th = std::thread::spawn(move || {
             tid2.store(unsafe { libc::syscall(libc::SYS_gettid) } as i32, Ordering::SeqCst);
             let mut c = Client::new(addr);
             let r = std::panic::catch_unwind(std::panic::AssertUnwindSafe(|| {
-                match c.get("/", Headers::empty_nodate()) {
+                // the entry points of the client in turn: get, post with a body, exchange with an extension method; the body is
+                // read through body() or after into_parts()
+                let first = match variant % 3 { 0 => c.get("/", Headers::empty_nodate()), 1 => c.post("/p", Headers::empty_nodate(), &b"request body"[..]),
+                                                _ => c.exchange(&khttp::Method::from("PURGE"), "/x", Headers::empty_nodate(), std::io::empty()) };
+                match first {
                     Ok(mut resp) => {
                         let code = resp.status.code;
-                        match resp.body().vec() {
+                        let _ = resp.stream().peer_addr();
+                        let body = if variant % 2 == 0 { resp.body().vec() } else { let (_st, _h, mut b) = resp.into_parts(); b.vec() };
+                        match body {
                             Ok(b) => format!("OK,{},{}", code, hex(&b)),
                             Err(_) => format!("OK,{},BODYERR", code),
                         }
